@@ -124,16 +124,13 @@ impl Paragraph {
 
 impl std::fmt::Display for Field {
     fn fmt(&self, f: &mut std::fmt::Formatter) -> std::fmt::Result {
-        let lines = self.value.lines().collect::<Vec<_>>();
-        if lines.len() > 1 {
-            write!(f, "{}:", self.name)?;
-            for line in lines {
-                writeln!(f, " {}", line)?;
-            }
-            Ok(())
-        } else {
-            writeln!(f, "{}: {}", self.name, self.value)
+        // split('\n'), not lines(): an empty last line is part of the value and
+        // has to be written as a continuation line, not as a blank line
+        write!(f, "{}:", self.name)?;
+        for line in self.value.split('\n') {
+            writeln!(f, " {}", line)?;
         }
+        Ok(())
     }
 }
 
